@@ -69,8 +69,10 @@ func init() {
 			"and then, under BuildConstraint != \"\", HeaderComment(\"//go:build \" + the unmodified configured constraint) before the file is stored; (R2) the default of -output-constraint evaluates to false under the " +
 			"default -build-tags and to true without them (semantic evaluation with go/build/constraint); (R3) flag → GenerateConfig → ParseDocsConfig/config.Raw/generator.Config fields are wired to the " +
 			"same-named source; (R4) every packages.Load call in own code passes \"-tags\", <the unmodified tag string> under a != \"\" guard. That go list then ignores stale output is trusted.",
-		NotDecided: []string{"that go list really skips files excluded by the constraint (trusted)", "the recovery consequence itself (regeneration over broken output)"},
-		Run:        runC16,
+		NotDecided:   []string{"that go list really skips files excluded by the constraint (trusted)", "the recovery consequence itself (regeneration over broken output)"},
+		Run:          runC16,
+		Controls:     map[string]string{"generator/zz_gvlint_control_fs.go": controlFS, "config/zz_gvlint_control_fsread.go": controlFSRead},
+		ControlRules: []string{"C16.R5", "C16.R6"},
 	})
 }
 
@@ -152,6 +154,10 @@ func runC17(p *Prog, r *Report) {
 	c17O5(p, r, "C17.O5")
 	c17O6(p, r)
 	c17O7(p, r)
+	loopCompleteRule(p, r, "C17.O8", "every converter is generated and every registered file rendered: the converter loop of generator.Generate and the loops of fileManager.renderFiles have no break/continue/goto/non-failing return — on success the returned map holds a rendered entry for every output file", []loopSpec{
+		{"generator.Generate", "converters", "config.Converter"},
+		{"generator.(*fileManager).renderFiles", "files", ""},
+	})
 }
 
 func needFunc(p *Prog, r *Report, key string) (*FuncInfo, *ssa.Function) {
@@ -827,7 +833,8 @@ func runC15(p *Prog, r *Report) {
 	c15R3(p, r)
 	c15R4(p, r)
 	c15R5(p, r)
-	c15R6(p, r)
+	c15R6(p, r, "C15.R6")
+	getPackagesRule(p, r, "C15.R7")
 }
 
 // c15R2b: keys of the rendered map are the fileManager keys, which are getOutputDir(conv).
@@ -1107,8 +1114,8 @@ func c15R5(p *Prog, r *Report) {
 }
 
 // c15R6: @cwd/ paths are made absolute.
-func c15R6(p *Prog, r *Report) {
-	r.Rule("C15.R6", "in config/parse.File every path returned on the `@cwd/` branch is the result of filepath.Abs(filepath.Join(cwd, …)) — getOutputDir resolves relative paths against the declaring file, so an @cwd path must be absolute", 1)
+func c15R6(p *Prog, r *Report, id string) {
+	r.Rule(id, "in config/parse.File every path returned on the `@cwd/` branch is the result of filepath.Abs(filepath.Join(cwd, …)) — getOutputDir resolves relative paths against the declaring file, so an @cwd path must be absolute", 1)
 	fi, sf := needFunc(p, r, "config/parse.File")
 	if fi == nil {
 		return
@@ -1164,6 +1171,8 @@ func runC16(p *Prog, r *Report) {
 	c16R2(p, r)
 	c16R3(p, r)
 	c16R4(p, r)
+	ruleWhoMayWrite(p, r, "C16.R5")
+	noFsReadRule(p, r, "C16.R6")
 }
 
 func c16R1(p *Prog, r *Report) {
